@@ -6,11 +6,31 @@ import Nq.Lemmas.DaemonInv
 namespace Nq.Lemmas.DI
 open Nq Nq.Daemon
 
+/-- the two states agree on the envelope, on the ghost history and on the bounce / message files -/
+structure SameGhost (ms ms' : MsgSt) : Prop where
+  e1 : ms'.todo = ms.todo
+  e2 : ms'.accepted = ms.accepted
+  e3 : ms'.fin = ms.fin
+  e4 : ms'.delivered = ms.delivered
+  e5 : ms'.noted = ms.noted
+  e6 : ms'.inFile = ms.inFile
+  e7 : ms'.bounced = ms.bounced
+  e8 : ms'.droppedRecs = ms.droppedRecs
+  e9 : ms'.lostRecs = ms.lostRecs
+  e10 : ms'.bounce = ms.bounce
+  e11 : ms'.mess = ms.mess
+
+theorem SameGhost.setChan (ms : MsgSt) (c : Ch) (v : Option (List Rec)) : SameGhost ms (ms.setChan c v) := by
+  cases c <;> constructor <;> rfl
+theorem SameGhost.setChanSynced (ms : MsgSt) (c : Ch) (v : Bool) : SameGhost ms (ms.setChanSynced c v) := by
+  cases c <;> constructor <;> rfl
+theorem SameGhost.trans {a b c : MsgSt} (h1 : SameGhost a b) (h2 : SameGhost b c) : SameGhost a c :=
+  ⟨h2.e1.trans h1.e1, h2.e2.trans h1.e2, h2.e3.trans h1.e3, h2.e4.trans h1.e4, h2.e5.trans h1.e5, h2.e6.trans h1.e6,
+   h2.e7.trans h1.e7, h2.e8.trans h1.e8, h2.e9.trans h1.e9, h2.e10.trans h1.e10, h2.e11.trans h1.e11⟩
+
 /-- events that happen while `todo/<m>` still exists cannot disturb the accounting -/
-theorem minv_todo_ctx (cfg : Cfg) (ms ms' : MsgSt) (h : MInv cfg ms) (ht : ms.todo.isSome)
-    (e1 : ms'.todo = ms.todo) (e2 : ms'.accepted = ms.accepted) (e3 : ms'.fin = ms.fin) (e4 : ms'.delivered = ms.delivered)
-    (e5 : ms'.noted = ms.noted) (e6 : ms'.inFile = ms.inFile) (e7 : ms'.bounced = ms.bounced)
-    (e8 : ms'.discarded = ms.discarded) (e9 : ms'.lost = ms.lost) (e10 : ms'.bounce = ms.bounce) : MInv cfg ms' := by
+theorem minv_todo_ctx (cfg : Cfg) (ms ms' : MsgSt) (h : MInv cfg ms) (ht : ms.todo.isSome) (g : SameGhost ms ms') : MInv cfg ms' := by
+  obtain ⟨e1, e2, e3, e4, e5, e6, e7, e8, e9, e10, e11⟩ := g
   have hne : ms'.todo ≠ none := by rw [e1]; intro hn; simp [hn] at ht
   constructor
   · intro env he; rw [e2]; exact h.a1 env (by rw [← e1]; exact he)
@@ -22,6 +42,9 @@ theorem minv_todo_ctx (cfg : Cfg) (ms ms' : MsgSt) (h : MInv cfg ms) (ht : ms.to
   · intro hb; rw [e6]; exact h.k5 (by rw [← e10]; exact hb)
   · intro hn; exact absurd hn hne
   · intro hn; exact absurd hn hne
+  · intro hn; exact absurd hn hne
+  · intro _; rw [e11]; exact h.m1 (Or.inl ht)
+  · intro sd r ha hd; rw [e2] at ha; rw [e8] at hd; exact h.d1 sd r ha hd
 
 theorem msg_with_volatile (s : St) (k : Nat) (n : List Note) (mm : List (Nat × Ch × Nat)) :
     ({ s with notes := n, mayMark := mm } : St).msg k = s.msg k := rfl
@@ -29,7 +52,7 @@ theorem msg_with_volatile (s : St) (k : Nat) (n : List Note) (mm : List (Nat × 
 /-- one message updated, clean exchange not in progress, `fin` only grows -/
 theorem inv_upd_grow (cfg : Cfg) (s : St) (m : Nat) (f : MsgSt → MsgSt) (hinv : Inv cfg s) (hclean : s.clean = none)
     (hm : MInv cfg (f (s.msg m))) (hfin : ∀ x ∈ (s.msg m).fin, x ∈ (f (s.msg m)).fin) : Inv cfg (s.upd m f) := by
-  refine inv_upd cfg s m f _ (fun k => St.msg_upd s m k f) hinv hm ?_ ?_
+  refine inv_upd cfg s m f _ (fun k => St.msg_upd s m k f) hinv hm ?_ ?_ ?_
   · intro m' c i hmem
     have h0 := hinv.may m' c i hmem
     rw [St.msg_upd]
@@ -39,12 +62,16 @@ theorem inv_upd_grow (cfg : Cfg) (s : St) (m : Nat) (f : MsgSt → MsgSt) (hinv 
   · intro m' hc
     have : (s.upd m f).clean = s.clean := rfl
     rw [this, hclean] at hc; cases hc
+  · intro m' hc
+    have : (s.upd m f).clean = s.clean := rfl
+    rw [this, hclean] at hc; cases hc
 
 /-! ### per-event preservation of the per-message invariant -/
 
 theorem minv_unlinkChan_job (cfg : Cfg) (ms : MsgSt) (c : Ch) (rs : List Rec) (h : MInv cfg ms) (ht : ms.todo = none)
     (hc : ms.chan c = some rs) (hfin : allFinished ms c rs = true) : MInv cfg (ms.setChan c none) := by
   obtain ⟨r1, r2, r3, r4, r5, r6, r7, r8, r9, r10, r11, r12, r13⟩ := setChan_rest ms c none
+  obtain ⟨q1, q2, q3⟩ := setChan_rest2 ms c none
   have hplaced : ∀ c', MsgSt.placed (ms.setChan c none) c' = MsgSt.placed ms c' := by
     intro c'; cases c' <;> simp [MsgSt.placed, r12, r13]
   constructor
@@ -61,7 +88,7 @@ theorem minv_unlinkChan_job (cfg : Cfg) (ms : MsgSt) (c : Ch) (rs : List Rec) (h
     · cases hc'
     · rw [r4]; exact h.k2 ht c' rs' i hc' hd hi
   · intro x hx; rw [r4] at hx; rw [r5, r6]; exact h.k3 x hx
-  · intro x hx; rw [r6] at hx; rw [r7, r8, r9, r10]; exact h.k4 x hx
+  · intro x hx; rw [r6] at hx; rw [r7, r8, q1, q2]; exact h.k4 x hx
   · intro hb; rw [r7]; exact h.k5 (by rw [← r3]; exact hb)
   · intro _ _
     rw [r2]
@@ -85,15 +112,15 @@ theorem minv_unlinkChan_job (cfg : Cfg) (ms : MsgSt) (c : Ch) (rs : List Rec) (h
     · rw [chan_setChan] at hc'
       simp only [hcc, if_false] at hc'
       exact h.k7 ht c' hc' i hi
-
+  · intro _ sd r i ha hi; rw [r11] at ha; rw [r2] at hi; exact h.i1 ht sd r i ha hi
+  · intro hp; rw [r1, r2] at hp; rw [q3]; exact h.m1 hp
+  · intro sd r ha hd; rw [r11] at ha; rw [q1] at hd; exact h.d1 sd r ha hd
 
 /-- a change that touches none of the fields the invariant speaks about -/
-theorem minv_congr (cfg : Cfg) (ms ms' : MsgSt) (h : MInv cfg ms)
-    (e1 : ms'.todo = ms.todo) (e2 : ms'.accepted = ms.accepted) (e3 : ms'.fin = ms.fin) (e4 : ms'.delivered = ms.delivered)
-    (e5 : ms'.noted = ms.noted) (e6 : ms'.inFile = ms.inFile) (e7 : ms'.bounced = ms.bounced)
-    (e8 : ms'.discarded = ms.discarded) (e9 : ms'.lost = ms.lost) (e10 : ms'.bounce = ms.bounce)
+theorem minv_congr (cfg : Cfg) (ms ms' : MsgSt) (h : MInv cfg ms) (g : SameGhost ms ms')
     (e11 : ms'.loc = ms.loc) (e12 : ms'.rem = ms.rem) (e13 : ms'.placedLoc = ms.placedLoc) (e14 : ms'.placedRem = ms.placedRem)
-    (e15 : ms'.info.isSome = ms.info.isSome) : MInv cfg ms' := by
+    (e15 : ms'.info = ms.info) : MInv cfg ms' := by
+  obtain ⟨e1, e2, e3, e4, e5, e6, e7, e8, e9, e10, e16⟩ := g
   have hchan : ∀ c, ms'.chan c = ms.chan c := by intro c; cases c <;> simp [MsgSt.chan, e11, e12]
   have hpl : ∀ c, MsgSt.placed ms' c = MsgSt.placed ms c := by intro c; cases c <;> simp [MsgSt.placed, e13, e14]
   constructor
@@ -106,9 +133,29 @@ theorem minv_congr (cfg : Cfg) (ms ms' : MsgSt) (h : MInv cfg ms)
   · intro hb; rw [e6]; exact h.k5 (by rw [← e10]; exact hb)
   · intro hn hp; rw [e15]; exact h.k6 (by rw [← e1]; exact hn) (by rw [← e11, ← e12, ← e10]; exact hp)
   · intro hn c hc i hi; rw [e3]; rw [hpl] at hi; exact h.k7 (by rw [← e1]; exact hn) c (by rw [← hchan]; exact hc) i hi
+  · intro hn sd r i ha hi; rw [e1] at hn; rw [e2] at ha; rw [e15] at hi; exact h.i1 hn sd r i ha hi
+  · intro hp; rw [e1, e15] at hp; rw [e16]; exact h.m1 hp
+  · intro sd r ha hd; rw [e2] at ha; rw [e8] at hd; exact h.d1 sd r ha hd
+
+/-- qmail-clean removes `mess/<m>` on a `foop/<m>` request, which is granted only when `todo/<m>` and `info/<m>` are gone -/
+theorem minv_unlinkMess (cfg : Cfg) (ms : MsgSt) (h : MInv cfg ms) (ht : ms.todo = none) (hi : ms.info = none) :
+    MInv cfg { ms with mess := false } := by
+  constructor
+  · exact h.a1
+  · exact h.a2
+  · exact h.k1
+  · exact h.k2
+  · exact h.k3
+  · exact h.k4
+  · exact h.k5
+  · exact h.k6
+  · exact h.k7
+  · exact h.i1
+  · intro hp; simp [ht, hi] at hp
+  · exact h.d1
 
 theorem minv_unlinkInfo_done (cfg : Cfg) (ms : MsgSt) (h : MInv cfg ms)
-    (hl : ms.loc = none) (hr : ms.rem = none) (hb : ms.bounce = none) :
+    (hl : ms.loc = none) (hr : ms.rem = none) (hb : ms.bounce = none) (ht : ms.todo = none) :
     MInv cfg { ms with info := none, infoSynced := false } := by
   constructor
   · exact h.a1
@@ -120,10 +167,14 @@ theorem minv_unlinkInfo_done (cfg : Cfg) (ms : MsgSt) (h : MInv cfg ms)
   · exact h.k5
   · intro _ hp; simp [hl, hr, hb] at hp
   · exact h.k7
+  · intro _ sd r i _ hi; simp at hi
+  · intro hp; simp [ht] at hp
+  · exact h.d1
 
 theorem minv_markD (cfg : Cfg) (ms : MsgSt) (c : Ch) (rs : List Rec) (idx : Nat) (h : MInv cfg ms)
     (hc : ms.chan c = some rs) (hfin : (c, idx) ∈ ms.fin) : MInv cfg (ms.setChan c (some (setDone rs idx))) := by
   obtain ⟨r1, r2, r3, r4, r5, r6, r7, r8, r9, r10, r11, r12, r13⟩ := setChan_rest ms c (some (setDone rs idx))
+  obtain ⟨q1, q2, q3⟩ := setChan_rest2 ms c (some (setDone rs idx))
   have hplaced : ∀ c', MsgSt.placed (ms.setChan c (some (setDone rs idx))) c' = MsgSt.placed ms c' := by
     intro c'; cases c' <;> simp [MsgSt.placed, r12, r13]
   constructor
@@ -144,7 +195,7 @@ theorem minv_markD (cfg : Cfg) (ms : MsgSt) (c : Ch) (rs : List Rec) (idx : Nat)
       · exact h.k2 hn c' rs i hc h1 hi
     · exact h.k2 hn c' rs' i hc' hd hi
   · intro x hx; rw [r4] at hx; rw [r5, r6]; exact h.k3 x hx
-  · intro x hx; rw [r6] at hx; rw [r7, r8, r9, r10]; exact h.k4 x hx
+  · intro x hx; rw [r6] at hx; rw [r7, r8, q1, q2]; exact h.k4 x hx
   · intro hb; rw [r7]; exact h.k5 (by rw [← r3]; exact hb)
   · intro hn _
     rw [r1] at hn; rw [r2]
@@ -157,6 +208,9 @@ theorem minv_markD (cfg : Cfg) (ms : MsgSt) (c : Ch) (rs : List Rec) (idx : Nat)
     split at hc'
     · cases hc'
     · exact h.k7 hn c' hc' i hi
+  · intro hn sd r i ha hi; rw [r1] at hn; rw [r11] at ha; rw [r2] at hi; exact h.i1 hn sd r i ha hi
+  · intro hp; rw [r1, r2] at hp; rw [q3]; exact h.m1 hp
+  · intro sd r ha hd; rw [r11] at ha; rw [q1] at hd; exact h.d1 sd r ha hd
 
 theorem minv_reportK (cfg : Cfg) (ms : MsgSt) (x : Ch × Nat) (h : MInv cfg ms) :
     MInv cfg { ms with fin := x :: ms.fin, delivered := x :: ms.delivered } := by
@@ -175,6 +229,9 @@ theorem minv_reportK (cfg : Cfg) (ms : MsgSt) (x : Ch × Nat) (h : MInv cfg ms) 
   · exact h.k5
   · exact h.k6
   · intro hn c hc i hi; exact List.mem_cons_of_mem _ (h.k7 hn c hc i hi)
+  · exact h.i1
+  · exact h.m1
+  · exact h.d1
 
 theorem minv_appendBounce (cfg : Cfg) (ms : MsgSt) (x : Ch × Nat) (bs : Bytes) (h : MInv cfg ms)
     (hi : ms.info.isSome = true) :
@@ -200,16 +257,34 @@ theorem minv_appendBounce (cfg : Cfg) (ms : MsgSt) (x : Ch × Nat) (bs : Bytes) 
   · intro hb; simp at hb
   · intro _ _; exact hi
   · intro hn c hc i hi'; exact List.mem_cons_of_mem _ (h.k7 hn c hc i hi')
+  · exact h.i1
+  · exact h.m1
+  · exact h.d1
 
-theorem minv_unlinkBounce_discard (cfg : Cfg) (ms : MsgSt) (h : MInv cfg ms) :
-    MInv cfg { ms with bounce := none, inFile := [], discarded := true } := by
+theorem dropLast_append_singleton (l : Bytes) (a : Byte) : (l ++ [a]).dropLast = l := by
+  induction l with
+  | nil => rfl
+  | cons x xs ih =>
+    cases xs with
+    | nil => rfl
+    | cons y ys => simp only [List.cons_append, List.dropLast_cons_cons] at ih ⊢; rw [ih]
+
+/-- the bounce file of a message whose `info/<m>` names the sender `#@[]` is discarded: every paragraph in it goes to `droppedRecs` -/
+theorem minv_unlinkBounce_discard (cfg : Cfg) (ms : MsgSt) (h : MInv cfg ms) (ht : ms.todo = none) (info : Bytes)
+    (hinfo : ms.info = some info) (hs : (info.drop 1).dropLast = [35, 64, 91, 93]) :
+    MInv cfg { ms with bounce := none, inFile := [], discarded := true, droppedRecs := ms.inFile ++ ms.droppedRecs } := by
   constructor
   · exact h.a1
   · exact h.a2
   · exact h.k1
   · exact h.k2
   · exact h.k3
-  · intro x _; right; right; left; rfl
+  · intro x hx
+    rcases h.k4 x hx with h1 | h1 | h1 | h1
+    · right; right; left; exact List.mem_append_left _ h1
+    · right; left; exact h1
+    · right; right; left; exact List.mem_append_right _ h1
+    · right; right; right; exact h1
   · intro _; rfl
   · intro hn hp
     rcases hp with hp | hp | hp
@@ -217,6 +292,12 @@ theorem minv_unlinkBounce_discard (cfg : Cfg) (ms : MsgSt) (h : MInv cfg ms) :
     · exact h.k6 hn (Or.inr (Or.inl hp))
     · simp at hp
   · exact h.k7
+  · exact h.i1
+  · exact h.m1
+  · intro sd r ha _
+    have := h.i1 ht sd r info ha hinfo
+    rw [this] at hs
+    simpa [dropLast_append_singleton] using hs
 
 theorem minv_unlinkBounce_ok (cfg : Cfg) (ms : MsgSt) (h : MInv cfg ms) :
     MInv cfg { ms with bounce := none, bounced := ms.inFile ++ ms.bounced, inFile := [] } := by
@@ -238,23 +319,37 @@ theorem minv_unlinkBounce_ok (cfg : Cfg) (ms : MsgSt) (h : MInv cfg ms) :
     · exact h.k6 hn (Or.inr (Or.inl hp))
     · simp at hp
   · exact h.k7
+  · exact h.i1
+  · exact h.m1
+  · exact h.d1
 
+/-- a crash changes the content of `bounce/<m>`: the paragraphs that were in the file stay accounted — they are still in the
+file (`inFile`, when the old content survives as a prefix) or become exempt (`lostRecs`) -/
 theorem minv_crashBounce (cfg : Cfg) (ms : MsgSt) (content : Bytes) (h : MInv cfg ms)
     (hg : ms.bounce.isSome = true ∨ (ms.todo.isNone = true ∧ ms.info.isSome = true)) :
-    MInv cfg { ms with bounce := some content, lost := true, lastInject := false } := by
+    MInv cfg { ms with bounce := some content, lost := true, lastInject := false,
+                       lostRecs := (if (ms.bounce.getD []).isPrefixOf content then [] else ms.inFile) ++ ms.lostRecs } := by
   constructor
   · exact h.a1
   · exact h.a2
   · exact h.k1
   · exact h.k2
   · exact h.k3
-  · intro x _; right; right; right; rfl
+  · intro x hx
+    rcases h.k4 x hx with h1 | h1 | h1 | h1
+    · left; exact h1
+    · right; left; exact h1
+    · right; right; left; exact h1
+    · right; right; right; exact List.mem_append_right _ h1
   · intro hb; simp at hb
   · intro hn _
     rcases hg with hg | hg
     · exact h.k6 hn (Or.inr (Or.inr hg))
     · exact hg.2
   · exact h.k7
+  · exact h.i1
+  · exact h.m1
+  · exact h.d1
 
 theorem allT_getD : ∀ (rs : List Rec) (i : Nat), allT rs = true → i < rs.length → (rs.getD i ⟨false, []⟩).done = false
   | [], _, _, h => by simp at h
@@ -284,9 +379,16 @@ theorem minv_unlinkTodo (cfg : Cfg) (ms : MsgSt) (h : MInv cfg ms) (hr : TodoRea
   · intro x hx; simp at hx
   · intro x hx; simp at hx
   · intro _; rfl
-  · intro _ _; exact hi
+  · intro _ _; show ms.info.isSome = true; rw [hi]; rfl
   · intro _ c hc i hi'
     cases c <;> simp [MsgSt.chan] at hc <;> simp [MsgSt.placed, hc, optAddrs] at hi'
+  · intro _ sd r i ha hinf
+    have := h.a1 (sender, rcpts) ht
+    simp only at ha hinf
+    rw [this] at ha; cases ha
+    rw [hi] at hinf; cases hinf; rfl
+  · intro _; exact h.m1 (Or.inl (by rw [ht]; rfl))
+  · exact h.d1
 
 theorem minv_newmsg (cfg : Cfg) (sender : Bytes) (rcpts : List Bytes) :
     MInv cfg { mess := true, intd := true, todo := some (sender, rcpts), accepted := some (sender, rcpts) } := by
@@ -300,5 +402,8 @@ theorem minv_newmsg (cfg : Cfg) (sender : Bytes) (rcpts : List Bytes) :
   · intro _; rfl
   · intro hn; simp at hn
   · intro hn; simp at hn
+  · intro hn; simp at hn
+  · intro _; rfl
+  · intro sd r _ hd; simp at hd
 
 end Nq.Lemmas.DI
